@@ -113,6 +113,24 @@ def _multistart(prog, c7, ms):
                                  ("sorted(_r, key=lambda z: z[1])[0][0]", "min(_r, key=lambda z: z[1])[0]"))
     if not okr:
         why.append(f"the returned solution `{U(rets[0])[:160] if rets else None}` is not the lowest-cost result")
+    else:
+        # ... the lowest cost over EVERY run: the ranked list is the list of results itself (one per start), not a selection from it
+        bb = next(pmatch(rets[0], pt) for pt in ("sorted(_r, key=lambda z: z[1])[0][0]", "min(_r, key=lambda z: z[1])[0]") if pmatch(rets[0], pt) is not None)
+        rt_ = ast.parse(bb["_r"], mode="eval").body
+        all_runs = pmatch(rt_, "[self.launch_bfgs(_x) for _x in _S]") is not None or \
+            (isinstance(rt_, ast.Call) and isinstance(rt_.func, ast.Attribute) and rt_.func.attr == "map" and len(rt_.args) == 2
+             and U(rt_.args[0]) == "self.launch_bfgs") or \
+            (isinstance(rt_, ast.IfExp) and all(
+                pmatch(a_, "[self.launch_bfgs(_x) for _x in _S]") is not None or
+                (isinstance(a_, ast.Call) and isinstance(a_.func, ast.Attribute) and a_.func.attr == "map" and U(a_.args[0]) == "self.launch_bfgs")
+                for a_ in (rt_.body, rt_.orelse)))
+        if not all_runs:
+            if any(isinstance(x, (ast.ListComp, ast.GeneratorExp)) and x.generators and x.generators[0].ifs for x in ast.walk(rt_)) \
+                    or any(isinstance(x, ast.Call) and U(x.func) == "filter" for x in ast.walk(rt_)):
+                why.append(f"the solution is chosen from a selection of the runs, `{U(rt_)[:140]}`: a run left out (the one from the centre of the "
+                           f"box, say) may be the lowest-cost one")
+            else:
+                raise AnalysisError(f"multistart: the ranked list `{U(rt_)[:140]}` is not recognised as the list of all runs - not decided")
     return struct_ob("multistart", qual(c7, ms), not why,
                      "the multi-start must include the centre of the bounds box, draw the other starts inside the box, run "
                      "L-BFGS-B from every start and return the lowest-cost solution: " + "; ".join(why), REL, ms.lineno)
